@@ -14,6 +14,7 @@ func init() {
 	register(&Prop{ID: "C08", Run: runC08,
 		Technique: "static analysis: must-pass-through of the status writes in Agent.Run and of the done notification in the worker, decision tables of the latest-status query and of the status getter, field coverage of the recorder / restorer (go/ssa)",
 		Decided: []string{
+			"the run's socket is served until the agent shuts it down: every way out of the accept loop is under the shutdown flag (C08.serve-until-shutdown)",
 			"run state that other goroutines read under a mutex (node state, cmd, cancelFunc, Scheduler.lastError / canceled, graph start/finish times - the set is inferred from the code's own locked reads and writes) is written with that mutex held everywhere outside the construction phase, and node state is read from outside the node's methods only under it (C08.state-lock)",
 			"a status is written after a successful Open, after Schedule on every path to the return, and on every node notification (C08.write-points); the worker notifies on every exit after launch (C08.done-on-every-exit)",
 			"the latest-status query returns the live answer when the socket answered and a persisted status only after correcting running→failed; that correction rewrites nothing else (C08.latest, C08.correct-table)",
@@ -36,6 +37,7 @@ func runC08(e *Env) {
 	c08Latest(e)
 	c08PersistedFields(e, s)
 	c08LiveIsRunning(e)
+	c08ServeUntilShutdown(e, "C08.serve-until-shutdown")
 	c16ProbeTable(e)
 	c09StartGuard(e)
 	cLockDiscipline(e)
@@ -52,6 +54,25 @@ func c08WritePoints(e *Env, s *Sched) {
 	run := a.Run
 	if run == nil {
 		return
+	}
+	// the body of the real run may have been moved into a helper only Run calls
+	// (`Run` = checks + `execute`): the function that both opens the history and schedules
+	if len(ir.CallsIn(run, func(c *ssa.CallCommon) bool { return c.StaticCallee() == s.Loop })) == 0 {
+		for _, g := range sortedFns(e.inlinedSet(run, nil)) {
+			if g == run || !a.inPkg(g) || g.Parent() != nil {
+				continue
+			}
+			hasSched := len(ir.CallsIn(g, func(c *ssa.CallCommon) bool { return c.StaticCallee() == s.Loop })) > 0
+			hasOpen := false
+			for _, ci := range a.Sites(g, apiHistory+"Open") {
+				if ci.Parent() == g {
+					hasOpen = true
+				}
+			}
+			if hasSched && hasOpen {
+				run = g
+			}
+		}
 	}
 	isW := func(in ssa.Instruction) bool {
 		c, ok := in.(*ssa.Call)
